@@ -32,7 +32,10 @@ static std::string tag_of(const std::string& method, const std::string& path, co
 // responder thread: handlers may hand their ResponseWriter over and get answered from here
 struct Responder {
     std::mutex m; std::condition_variable cv; std::deque<std::pair<std::string, std::shared_ptr<Http::ResponseWriter>>> q; bool stop = false; std::thread th;
-    void start() { th = std::thread([this] { for (;;) { std::pair<std::string, std::shared_ptr<Http::ResponseWriter>> it; { std::unique_lock<std::mutex> lk(m); cv.wait(lk, [&] { return stop || !q.empty(); }); if (q.empty()) return; it = std::move(q.front()); q.pop_front(); } it.second->send(Http::Code::Ok, it.first); } }); }
+    void start() { th = std::thread([this] { for (;;) { std::pair<std::string, std::shared_ptr<Http::ResponseWriter>> it; { std::unique_lock<std::mutex> lk(m); cv.wait(lk, [&] { return stop || !q.empty(); }); if (q.empty()) return; it = std::move(q.front()); q.pop_front(); }
+            // (a response for a client that has left in the meantime: the writer reports it by an exception or a rejected promise)
+            if (it.first.find("abandon") != std::string::npos) lv::msleep(3);
+            try { it.second->send(Http::Code::Ok, it.first); } catch (const std::exception&) { } } }); }
     void push(std::string body, Http::ResponseWriter w) { { std::lock_guard<std::mutex> g(m); q.emplace_back(std::move(body), std::make_shared<Http::ResponseWriter>(std::move(w))); } cv.notify_one(); }
     void finish() { { std::lock_guard<std::mutex> g(m); stop = true; } cv.notify_all(); if (th.joinable()) th.join(); }
 };
@@ -102,6 +105,15 @@ static void churn_loop(int port, int id, int nconn, uint64_t seed, bool tolerate
     for (int k = 0; k < nconn; k++) {
         lv::Conn c; if (!c.open_to(port)) { if (!tolerateShutdown) viol("c09:connect-refused-under-load", "connect failed while the server is up", Json().str("config", cfg).done()); st.incomplete++; return; }
         int nr = r.range(0, 2);
+        if (r.chance(1, 3)) {
+            // a client that leaves without waiting for its answer (the answer is written later, from the responder thread or after a
+            // slow handler): whoever gets the same descriptor number next must not receive it
+            std::string path = (r.chance(1, 2) ? "/foreign/abandon" : "/slow/abandon") + std::to_string(id) + "x" + std::to_string(k);
+            c.send_all("GET " + path + " HTTP/1.1\r\nHost: x\r\nConnection: keep-alive\r\nContent-Length: 0\r\n\r\n");
+            if (r.chance(1, 2)) c.rst_close(); else c.close_now();
+            count("abandoned_requests");
+            continue;
+        }
         std::string buf; size_t off = 0;
         for (int j = 0; j < nr; j++) {
             std::string path = "/a/churn" + std::to_string(id) + "x" + std::to_string(k) + "x" + std::to_string(j);
@@ -218,6 +230,38 @@ int main(int argc, char** argv) {
     { std::thread t([] {}); t.join(); lv::Conn c; c.open_to(1); lv::msleep(50); }
     Rng r(g_opts.seed * 4001 + (uint64_t)g_opts.shard);
     long skip = g_opts.num("skip", -1);
+    if (g_opts.get("prop", "c09") == "storm") {
+        // connection storm: many short-lived connections, a third of which leave without waiting for their answer; every answer that
+        // IS read must be the function of the request sent on that connection (descriptor numbers are reused at a high rate)
+        for (long n = 0; n < g_opts.cases; n++) {
+            long idx = g_opts.shard * 100000L + n;
+            emit(Json().str("t", "progress").num("i", idx).num("stride", 1).done());
+            if (idx <= skip) continue;
+            int workers = (int)std::vector<int>{1, 2, 4}[r.below(3)]; int churners = r.range(4, 10); int nconn = (int)g_opts.num("stormconns", 300);
+            std::string cfg = "storm workers=" + std::to_string(workers) + " churners=" + std::to_string(churners) + " connections=" + std::to_string(nconn);
+            set_case(idx, Json().num("i", idx).str("phase", "c09-storm").str("config", cfg).done());
+            Responder responder; responder.start(); g_responder = &responder; g_slow_ms = 2;
+            auto router = make_router();
+            auto* ep = new Http::Endpoint(Address(Ipv4::loopback(), Port(0)));
+            ep->init(Http::Endpoint::options().threads(workers).flags(Tcp::Options::ReuseAddr));
+            ep->setHandler(Rest::Router::handler(router)); ep->serveThreaded();
+            int port = ep->getPort(); uint64_t seed = r.next();
+            std::vector<std::thread> th; std::vector<ClientStats> cs((size_t)churners);
+            for (int k = 0; k < churners; k++) th.emplace_back([&, k] { churn_loop(port, 100 + k, nconn, seed * 977 + (uint64_t)k, false, cs[(size_t)k], cfg); });
+            for (auto& t : th) t.join();
+            ep->shutdown(); delete ep; responder.finish(); g_responder = nullptr;
+            long ok = 0; for (auto& c : cs) ok += c.ok;
+            g_evals++; count("storm_rounds"); count("storm_responses_checked", ok);
+            g_distinct.add("storm|" + std::to_string(workers) + "|" + std::to_string(churners));
+            if (g_samples_left > 0) { g_samples_left--; sample(Json().str("config", cfg).num("responses_checked", ok).done()); }
+        }
+        g_distinct.flush();
+        Json s; s.str("t", "sum").num("evaluations", g_evals);
+        Json c; for (auto& kv : g_counts) c.num(kv.first, kv.second);
+        s.raw("counts", c.done());
+        emit(s.done());
+        _exit(0);
+    }
     for (long n = 0; n < g_opts.cases; n++) {
         long idx = g_opts.shard * 100000L + n;
         int workers = (int)std::vector<int>{1, 2, 4, 8}[r.below(4)];
